@@ -4,7 +4,7 @@
 
 use crate::common::*;
 use crate::gen::voice::window_set;
-use crate::oracle::dense::{mlpg_reference, NODATA};
+use crate::oracle::dense::{mlpg_gradient_residual, mlpg_reference, NODATA};
 use jbonsai::mlpg_adjust::MlpgAdjust;
 use jbonsai::model::voice::window::{Window, Windows};
 use jbonsai::model::{MeanVari, ModelStream, StreamParameter};
@@ -194,6 +194,78 @@ fn run_case(syms: &[Sym], wset: usize, vlen: usize, rep: &Report, st: &Stats) {
     }
 }
 
+
+/// States of 1..97 frames each, symbols cycling through the full alphabet, filling the given runs.
+fn long_case(runs: &[(bool, usize)], nwin: usize, vlen: usize) -> (Vec<(Vec<(f64, f64)>, bool)>, Vec<usize>) {
+    let mut states = Vec::new();
+    let mut durations = Vec::new();
+    let mut si = 0usize;
+    for (voiced, len) in runs {
+        let mut left = *len;
+        while left > 0 {
+            let d = (1 + (si * 37) % 97).min(left);
+            let sym = Sym { mean: si % 3, var: (si / 3) % 3, dur: d, voiced: *voiced };
+            states.push((state_params(sym, si, nwin, vlen, false), *voiced));
+            durations.push(d);
+            left -= d;
+            si += 1;
+        }
+    }
+    (states, durations)
+}
+
+/// Voiced runs far longer than any enumerated case (lengths around 2^16 and 2^17): the dense solve is out of reach there,
+/// so optimality is tested through the gradient of the likelihood at the returned trajectory, frame by frame.
+fn long_runs(rep: &Report, tier: Tier) -> u64 {
+    // (window set, vector length, runs as (voiced, frames))
+    let mut cases: Vec<(usize, usize, Vec<(bool, usize)>)> = vec![
+        (2, 1, vec![(true, 70000)]),
+        (3, 2, vec![(false, 3), (true, 65536 + 5), (false, 2), (true, 131072 + 7)]),
+        (1, 1, vec![(true, 65535), (false, 1), (true, 65536), (false, 1), (true, 65537)]),
+        (8, 1, vec![(false, 1), (true, 66000), (false, 1)]),
+    ];
+    if tier == Tier::Thorough {
+        cases.push((2, 1, vec![(true, (1 << 20) + 3)]));
+        cases.push((5, 2, vec![(true, 262144 + 1), (false, 2), (true, 300000)]));
+    }
+    let n = cases.len() as u64;
+    rep.par_for(cases.len(), 1, "C05 long runs", |ci| {
+        let (wset, vlen, runs) = &cases[ci];
+        let wins = window_set(*wset);
+        let nwin = wins.len();
+        let (states, durations) = long_case(runs, nwin, *vlen);
+        let sp = StreamParameter::new(states.iter().map(|(p, v)| (p.iter().map(|(m, va)| MeanVari(*m, *va)).collect(), if *v { 0.9 } else { 0.1 })).collect());
+        let windows = Windows::new(wins.iter().map(|w| Window::new(w.clone())).collect());
+        let desc = json!({"long_runs": runs.iter().map(|(v, l)| json!({"voiced": v, "frames": l})).collect::<Vec<_>>(), "window_set": wset, "windows": wins, "vector_length": vlen,
+            "states": "run split into states of 1 + (37 i mod 97) frames, symbol i cycling through means x variances"});
+        let got = match catch(|| MlpgAdjust::new(1.0, 0.5, ModelStream { vector_length: *vlen, stream: sp, gv: None, windows: &windows }).create(&durations)) {
+            Ok(g) => g,
+            Err(p) => {
+                rep.violation(format!("panic@{}", site_of(&p)), p, desc);
+                return;
+            }
+        };
+        rep.eval(1);
+        rep.cmp((got.len() * vlen) as u64);
+        match mlpg_gradient_residual(&states, &durations, &wins, *vlen, &got) {
+            Err(e) => rep.violation("long-run-shape", format!("long voiced runs: {}", e), desc),
+            Ok((worst, frame, comp)) => {
+                if !(worst <= 1e-7) {
+                    rep.violation("long-run-not-ml-solution", format!("long voiced runs: the likelihood gradient at the returned trajectory does not vanish at frame {} comp {} (relative size {:e}): not the ML solution", frame, comp, worst), desc);
+                    return;
+                }
+                // the oracle must see a small local error at a frame deep inside a run
+                let mut bent = got.clone();
+                let at = got.iter().position(|f| f[0].to_bits() != NODATA.to_bits()).unwrap_or(0) + 40000;
+                bent[at][0] += 1e-3;
+                let seen = matches!(mlpg_gradient_residual(&states, &durations, &wins, *vlen, &bent), Ok((w, _, _)) if w > 1e-5);
+                rep.guard(seen, "gradient oracle blind to a 1e-3 error deep inside a long run");
+            }
+        }
+    });
+    n
+}
+
 fn alphabet(durs: &[usize]) -> Vec<Sym> {
     let mut a = Vec::new();
     for voiced in [true, false] {
@@ -210,7 +282,7 @@ fn alphabet(durs: &[usize]) -> Vec<Sym> {
 
 pub fn run(tier: Tier) -> i32 {
     let rep = Report::new("C05", tier, "model_checking");
-    rep.set_rule("SCOPE: full product over 1..N states of per-state symbols (mean in 3 values) x (variance in {0.05,1,3}) x (duration in {1,2,3}) x {voiced, unvoiced}, for each of 12 window sets {static; +delta; +delta+delta-delta; width-5; width-3 delta with width-5 delta-delta; width-5 delta with width-3 delta-delta; even lengths 2 and 4; backward difference only; four windows; a zero-padded static window with and without dynamic windows} and vector lengths {1,2}, on the real MlpgAdjust::create (every fourth case with a window set that went through its Serialize/Deserialize round trip; every fifth case followed by a second create() on the same object with other durations); oracle = dense Gaussian elimination of the definition, rel. tolerance 1e-9; distinct = distinct (state sequence, window set, vector length); non-trivial = every case (each is compared frame by frame)");
+    rep.set_rule("SCOPE: full product over 1..N states of per-state symbols (mean in 3 values) x (variance in {0.05,1,3}) x (duration in {1,2,3}) x {voiced, unvoiced}, for each of 12 window sets {static; +delta; +delta+delta-delta; width-5; width-3 delta with width-5 delta-delta; width-5 delta with width-3 delta-delta; even lengths 2 and 4; backward difference only; four windows; a zero-padded static window with and without dynamic windows} and vector lengths {1,2}, on the real MlpgAdjust::create (every fourth case with a window set that went through its Serialize/Deserialize round trip; every fifth case followed by a second create() on the same object with other durations); oracle = dense Gaussian elimination of the definition, rel. tolerance 1e-9; plus single instances with voiced runs of 65535..131079 frames (thorough: up to 2^20) whose optimality is tested through the likelihood gradient at every frame (relative size <= 1e-7); distinct = distinct (state sequence, window set, vector length); non-trivial = every case (each is compared frame by frame)");
     rep.assume("variances within [0.05,3]; state counts/durations beyond the stated bound are covered only by the periodic families of the thorough tier");
     let st = Stats { island1: Default::default(), island2: Default::default(), all_unvoiced: Default::default(), ends_unvoiced: Default::default(), short_island_wide: Default::default(), worst: std::sync::Mutex::new(0.0) };
     let full = alphabet(&[1, 2, 3]);
@@ -345,6 +417,7 @@ pub fn run(tier: Tier) -> i32 {
             });
         }
     }
+    cases += long_runs(&rep, tier);
     rep.nontrivial.store(cases, Ordering::Relaxed);
     rep.states.store(cases, Ordering::Relaxed);
     rep.note("bounds", json!({"max_states_full_product": max_states, "per_state_alphabet": full.len(), "means": MEANS, "variances": VARS, "durations": [1,2,3], "window_sets": 12, "vector_lengths": [1,2],
@@ -366,6 +439,18 @@ pub fn replay(v: &serde_json::Value) -> i32 {
     let wins: Vec<Vec<f64>> = v["windows"].as_array().cloned().unwrap_or_default().iter().map(|w| w.as_array().cloned().unwrap_or_default().iter().filter_map(|x| x.as_f64()).collect()).collect();
     let vlen = v["vector_length"].as_u64().unwrap_or(1) as usize;
     let thr = v["threshold"].as_f64().unwrap_or(0.5);
+    if let Some(runs) = v["long_runs"].as_array() {
+        let runs: Vec<(bool, usize)> = runs.iter().map(|r| (r["voiced"].as_bool().unwrap_or(true), r["frames"].as_u64().unwrap_or(1) as usize)).collect();
+        let (states, durations) = long_case(&runs, wins.len(), vlen);
+        let sp = StreamParameter::new(states.iter().map(|(p, v)| (p.iter().map(|(m, va)| MeanVari(*m, *va)).collect(), if *v { 0.9 } else { 0.1 })).collect());
+        let windows = Windows::new(wins.iter().map(|w| Window::new(w.clone())).collect());
+        let got = catch(|| MlpgAdjust::new(1.0, 0.5, ModelStream { vector_length: vlen, stream: sp, gv: None, windows: &windows }).create(&durations));
+        let res = got.and_then(|g| mlpg_gradient_residual(&states, &durations, &wins, vlen, &g));
+        println!("long runs {:?}: likelihood gradient at the returned trajectory (worst relative size, frame, component) = {:?}", runs, res);
+        let ok = matches!(res, Ok((w, _, _)) if w <= 1e-7);
+        println!("{}", if ok { "replay: holds" } else { "replay: VIOLATED" });
+        return !ok as i32;
+    }
     let mut states: Vec<(Vec<(f64, f64)>, bool)> = Vec::new();
     let mut durations = Vec::new();
     let mut raw = Vec::new();
